@@ -84,11 +84,11 @@ Proof.
       reflexivity ].
 Qed.
 
-Lemma gen_print_out_ref : forall isls find wres lvl msg tr k,
-  Delivery.print_out (asm_ls isls) asm_logwr cell_writer (inner_ls isls) lw_as_list (lw_as_ls isls) find wres lvl msg tr k =
-  print_out_ref (asm_ls isls) asm_logwr cell_writer (inner_ls isls) lw_as_list (lw_as_ls isls) find wres lvl msg tr k.
+Lemma gen_print_out_ref : forall (wget : Z -> list member) isls find wres lvl msg tr k,
+  Delivery.print_out (asm_ls isls) asm_logwr cell_writer (inner_ls isls) lw_as_list (lw_as_ls isls) wget find wres lvl msg tr k =
+  print_out_ref (asm_ls isls) asm_logwr cell_writer (inner_ls isls) lw_as_list (lw_as_ls isls) wget find wres lvl msg tr k.
 Proof.
-  intros isls find wres lvl msg tr k.
+  intros wget isls find wres lvl msg tr k.
   first
     [ reflexivity
     | unfold Delivery.print_out, print_out_ref; cbv zeta; unfold io_write;
@@ -158,11 +158,11 @@ Proof.
 Qed.
 
 (* printOut on what findWriter returns for the configuration c: one unfolding of the model's cycle *)
-Lemma gen_print_out : forall isls wres c lvl msg k kind fuel,
+Lemma gen_print_out : forall (wget : Z -> list member) isls wres c lvl msg k kind fuel,
   let faults := fun i => snd (wres i) in
   let atts := fun tr' => stamp faults kind (writes_of tr') k in
   print_out_code (S fuel) c faults lvl kind k =
-  match Delivery.print_out (asm_ls isls) asm_logwr cell_writer (inner_ls isls) lw_as_list (lw_as_ls isls)
+  match Delivery.print_out (asm_ls isls) asm_logwr cell_writer (inner_ls isls) lw_as_list (lw_as_ls isls) wget
           (fun l => LWlist (dests c l)) wres lvl msg [] k with
   | PoReturn tr' k' => Normal (atts tr') k'
   | PoWarn tr' k' =>
@@ -171,10 +171,10 @@ Lemma gen_print_out : forall isls wres c lvl msg k kind fuel,
       else Normal (atts tr') k'
   | PoOther _ _ => OutOfFuel
   end
-  /\ (forall tr' k', Delivery.print_out (asm_ls isls) asm_logwr cell_writer (inner_ls isls) lw_as_list (lw_as_ls isls)
+  /\ (forall tr' k', Delivery.print_out (asm_ls isls) asm_logwr cell_writer (inner_ls isls) lw_as_list (lw_as_ls isls) wget
           (fun l => LWlist (dests c l)) wres lvl msg [] k <> PoOther tr' k').
 Proof.
-  intros isls wres c lvl msg k kind fuel faults atts. subst atts.
+  intros wget isls wres c lvl msg k kind fuel faults atts. subst atts.
   rewrite gen_print_out_ref. split; [|intros tr' k'; unfold print_out_ref; cbn [lw_is_nil lw_as_list];
     unfold write_leveled_ref; cbv beta iota zeta;
     destruct (negb (err_is_nil (failed_attempts wres k (length (dests c lvl)))) && negb (lvl =? 3)); discriminate]. unfold print_out_ref, print_out_code. cbn [lw_is_nil lw_as_list].
@@ -188,15 +188,15 @@ Qed.
 
 (* the other values a LogWriter can have: nothing is written through nil; a single writer that is not
    a list gets SetLevel if it asks for it (a *logwr cell is not looked through here) and one Write *)
-Lemma gen_print_out_other : forall isls wres lvl msg tr k m,
-  Delivery.print_out (asm_ls isls) asm_logwr cell_writer (inner_ls isls) lw_as_list (lw_as_ls isls)
+Lemma gen_print_out_other : forall (wget : Z -> list member) isls wres lvl msg tr k m,
+  Delivery.print_out (asm_ls isls) asm_logwr cell_writer (inner_ls isls) lw_as_list (lw_as_ls isls) wget
     (fun _ => LWnil) wres lvl msg tr k = PoReturn tr k
-  /\ Delivery.print_out (asm_ls isls) asm_logwr cell_writer (inner_ls isls) lw_as_list (lw_as_ls isls)
+  /\ Delivery.print_out (asm_ls isls) asm_logwr cell_writer (inner_ls isls) lw_as_list (lw_as_ls isls) wget
        (fun _ => LWone m) wres lvl msg tr k =
      (if snd (wres k) && negb (lvl =? 3) then PoWarn else PoReturn)
        (tr ++ (match asm_ls isls m with Some x => [EvSet x lvl] | None => [] end) ++ [EvWrite (member_id m)]) (S k).
 Proof.
-  intros isls wres lvl msg tr k m. split; rewrite gen_print_out_ref; unfold print_out_ref, io_write;
+  intros wget isls wres lvl msg tr k m. split; rewrite gen_print_out_ref; unfold print_out_ref, io_write;
   cbn [lw_is_nil lw_as_list lw_as_ls lw_id snd]; [reflexivity|].
   destruct (snd (wres k)); cbn [err_is_nil negb andb]; [|reflexivity]. destruct (lvl =? 3); reflexivity.
 Qed.
